@@ -61,8 +61,16 @@ def run(eng: Engine, ck: Check):
     ck.ob('R-C18-TICKETS', sm, sm.node, 'SearchManager has exactly one ticket generator, created at construction', len(gens) == 1 and gens[0][0].name == '__init__', '',
           construct='single generator')
     tg = eng.func('utils.py', 'ticket_generator')
-    src = unparse(tg.node)
-    ok = 'while True' in src and 'idx += 1' in src and 'yield idx' in src and '4294967295' in src
+    ys = [n for n in walk_local(tg.node) if isinstance(n, ast.Yield) and isinstance(n.value, ast.Name)]
+    ok = False
+    if len(ys) == 1:
+        cn = ys[0].value.id
+        loop_ = next((a for a in ancestors(ys[0]) if isinstance(a, ast.While) and const(a.test) is True), None)
+        incs = [n for n in walk_local(tg.node) if isinstance(n, ast.AugAssign) and isinstance(n.op, ast.Add) and unparse(n.target) == cn and const(n.value) == 1]
+        wraps = [n for n in walk_local(tg.node) if isinstance(n, ast.Assign) and unparse(n.targets[0]) == cn and loop_ is not None and loop_ in list(ancestors(n))]
+        wrap_ok = all(any(pol and (cmp_atom(e) or ('',))[0] in ('gt', 'ge') and unparse(cmp_atom(e)[1]) == cn and
+                          const(cmp_atom(e)[2]) in (0xFFFFFFFF, 0x100000000) for e, pol, _ in eng.guards_at(tg, w_)) for w_ in wraps)
+        ok = loop_ is not None and len(incs) == 1 and loop_ in list(ancestors(incs[0])) and not eng.guards_at(tg, incs[0])[1:] and wrap_ok and len(wraps) <= 1
     ck.ob('R-C18-TICKETS', tg, tg.node, 'ticket_generator yields strictly increasing values and wraps only beyond 2^32-1', ok, '', construct='generator monotone')
 
     # ---- R-C18-TIMER: removal vs timer
@@ -138,7 +146,10 @@ def run(eng: Engine, ck: Check):
     for x in tm:
         f = next(ff for ff in repo.all_funcs() if ff.cls is sm and any(y is x for y in calls_in(ff.node)))
         cbk = kw(x, 'callback')
-        ok = cbk is not None and 'partial(self._timeout_search_request, request)' in unparse(cbk)
+        # the request the timer is stored on / created for: `request.timer = Timer(..)` or SearchRequest(.., timer=Timer(..))
+        stt = enclosing_stmt(x)
+        owner = unparse(stt.targets[0].value) if isinstance(stt, ast.Assign) and isinstance(stt.targets[0], ast.Attribute) and stt.targets[0].attr == 'timer' else None
+        ok = cbk is not None and owner is not None and pat.match(cbk, pat.compile_pattern(f'partial(self._timeout_search_request, {owner})')[0]) is not None
         ck.ob('R-C18-TIMER', f, x, 'the timer removes exactly the request it was created for', ok, unparse(cbk), construct=f'{f.name} timer callback')
         starts = [y for y in calls_on(f.node, 'start') if 'timer' in unparse(y.func.value)]
         ck.ob('R-C18-TIMER', f, x, 'a created timer is started', len(starts) == 1, '', construct=f'{f.name} timer started')
